@@ -153,7 +153,7 @@ func init() {
 		jobs: func(tier string) []job {
 			js := []job{
 				J("socket", "VX_C20_Message", 1, 1, 0, 1), J("socket", "VX_C20_Message", 1, 1, 1, 1), J("socket", "VX_C20_Message", 1, 1, 2, 0), J("socket", "VX_C20_Message", 1, 1, 3, 1),
-				J("socket", "VX_C20_Args", 1, 1, 1), J("socket", "VX_C20_Args", 2, 1, 1), J("socket", "VX_C20_XferPipe", 2), J("socket", "VX_C20_ByteBuffer", 2, 1), J("socket", "VX_C20_GetMessagePanic", 1, 0), J("socket", "VX_C20_GetMessagePanic", 1, 1),
+				J("socket", "VX_C20_Args", 1, 1, 1), J("socket", "VX_C20_Args", 2, 1, 1), J("socket", "VX_C20_ArgsAfterDelete", 3, 3, 1), J("socket", "VX_C20_ArgsAfterDelete", 2, 2, 1), J("socket", "VX_C20_XferPipe", 2), J("socket", "VX_C20_ByteBuffer", 2, 1), J("socket", "VX_C20_GetMessagePanic", 1, 0), J("socket", "VX_C20_GetMessagePanic", 1, 1),
 				J(".", "VX_C20_ContextReuse", 0, 1), J(".", "VX_C20_ContextReuse", 1, 1), J(".", "VX_C20_ContextReuse", 2, 0),
 				J(".", "VX_C20_PreSessionPools", 0, 0), J(".", "VX_C20_PreSessionPools", 0, 1), J(".", "VX_C20_PreSessionPools", 1, 0), J(".", "VX_C20_PreSessionPools", 1, 1), J(".", "VX_C20_PreSessionPools", 2, 0), J(".", "VX_C20_PreSessionPools", 2, 1),
 				J("socket", "VX_C20_Socket", 2, 1), J("socket", "VX_C20_Socket", 1, 0), J("socket", "VX_C20_Socket", 2, 1, 1), J("socket", "VX_C20_Socket", 1, 0, 1),
@@ -353,7 +353,7 @@ func init() {
 		for _, a := range [][]int{{0, 0, 1}, {1, 0, 1}, {0, 1, 1}, {1, 1, 0}} {
 			js = append(js, J("plugin/proxy", "VX_C19_ProxyPush", a...))
 		}
-		js = append(js, J("plugin/proxy", "VX_C19_Sequence", 3))
+		js = append(js, J("plugin/proxy", "VX_C19_Sequence", 3), J("plugin/proxy", "VX_C19_OverlappingProxied", 2, 2), J("plugin/proxy", "VX_C19_OverlappingProxied", 3, 1), J("plugin/proxy", "VX_C19_OverlappingProxied", 1, 3))
 		js = append(js, J("plugin/proxy", "VX_C19_RealIPAfterSetID", 0, 0), J("plugin/proxy", "VX_C19_RealIPAfterSetID", 1, 0), J("plugin/proxy", "VX_C19_RealIPAfterSetID", 0, 1), J("plugin/proxy", "VX_C19_BackendLoss", 0, 0), J("plugin/proxy", "VX_C19_BackendLoss", 1, 0), J("plugin/proxy", "VX_C19_BackendLoss", 0, 1), J("plugin/proxy", "VX_C19_BackendLoss", 1, 1))
 		if tier == "thorough" {
 			js = append(js, J("plugin/proxy", "VX_C19_Sequence", 4))
@@ -380,7 +380,8 @@ func init() {
 			for k := 0; k < 10; k++ {
 				js = append(js, J(".", "VX_C15_Constructors", k, 0))
 			}
-			js = append(js, J(".", "VX_C15_Constructors", 0, 1), J(".", "VX_C15_Constructors", 1, 2))
+			js = append(js, J(".", "VX_C15_Constructors", 0, 1), J(".", "VX_C15_Constructors", 1, 2),
+				J(".", "VX_C15_StatusThroughPreSession", 0, 0), J(".", "VX_C15_StatusThroughPreSession", 1, 0), J(".", "VX_C15_StatusThroughPreSession", 0, 1), J(".", "VX_C15_StatusThroughPreSession", 1, 1), J(".", "VX_C15_StatusThroughPreSession", 2, 0))
 			if tier == "thorough" {
 				js = append(js, c02jobs("thorough")...)
 			}
@@ -491,6 +492,9 @@ func init() {
 			add(1, 0, 0, 0)
 			add(2, 0, 1, 1)
 			add(4, 0, 0, 1)
+			add(1, 0, 1, 0, 0, 0, 0, 1) // the checker is installed at run time after an earlier connection was accepted
+			add(0, 0, 1, 1, 0, 0, 0, 1)
+			add(2, 0, 1, 0, 0, 0, 0, 1)
 			add(0, 0, 1, 1, 1) // the verifier names the session (SetID) before deciding
 			add(1, 0, 0, 0, 1)
 			add(4, 0, 0, 1, 1)
@@ -522,7 +526,7 @@ func init() {
 			js := []job{J("plugin/overloader", "VX_C18_ConnHistory", 1, 3, 0), J("plugin/overloader", "VX_C18_ConnHistory", 1, 3, 1), J("plugin/overloader", "VX_C18_ConnHistory", 2, 4, 0),
 				J("plugin/overloader", "VX_C18_ConnRace", 1), J("plugin/overloader", "VX_C18_ConnRace", 2),
 				J("plugin/overloader", "VX_C18_QPS", 2, 3), J("plugin/overloader", "VX_C18_QPS", 1, 1), J("plugin/overloader", "VX_C18_QPSSession", 1, 3, 0), J("plugin/overloader", "VX_C18_QPSSession", 2, 3, 1), J("plugin/overloader", "VX_C18_QPSRace", 1, 1, 1, 2), J("plugin/overloader", "VX_C18_QPSRace", 2, 2, 3, 2),
-				J("plugin/overloader", "VX_C18_QPSInvariant", 4), J("plugin/overloader", "VX_C18_SlotAfterCloseAndLoss", 1), J("plugin/overloader", "VX_C18_SlotAfterCloseAndLoss", 2),
+				J("plugin/overloader", "VX_C18_QPSInvariant", 4), J("plugin/overloader", "VX_C18_SlotAfterCloseAndLoss", 1), J("plugin/overloader", "VX_C18_SlotWhileClosing", 1), J("plugin/overloader", "VX_C18_SlotWhileClosing", 2), J("plugin/overloader", "VX_C18_SlotAfterCloseAndLoss", 2),
 				J("plugin/overloader", "VX_C18_QPSSession", 1, 3, 0, 1), J("plugin/overloader", "VX_C18_QPSSession", 2, 3, 1, 1),
 				J("plugin/overloader", "VX_C18_HandlerQPS", 1, 3, 0), J("plugin/overloader", "VX_C18_HandlerQPS", 2, 3, 2), J("plugin/overloader", "VX_C18_HandlerQPS", 1, 3, 0, 1), J("plugin/overloader", "VX_C18_HandlerQPS", 2, 3, 2, 1), J("plugin/overloader", "VX_C18_UpdateLimits", 2, 1), J("plugin/overloader", "VX_C18_UpdateLimits", 3, 1), J("plugin/overloader", "VX_C18_UpdateLimits", 3, 2),
 				J("plugin/overloader", "VX_C18_DialSide", 0), J("plugin/overloader", "VX_C18_DialSide", 1)}
@@ -559,7 +563,7 @@ func init() {
 					js = append(js, J("plugin/secure", "VX_C17_Call", mark, acc, 1, 1))
 				}
 			}
-			js = append(js, J("plugin/secure", "VX_C17_Call", 1, 0, 0, 1), J("plugin/secure", "VX_C17_Call", 0, 0, 0, 1), J("plugin/secure", "VX_C17_Call", 1, 1, 1, 0),
+			js = append(js, J("plugin/secure", "VX_C17_Call", 1, 0, 0, 1), J("plugin/secure", "VX_C17_Call", 0, 0, 0, 1), J("plugin/secure", "VX_C17_Call", 1, 1, 1, 0), J("plugin/secure", "VX_C17_Call", 1, 0, 0, 0), J("plugin/secure", "VX_C17_Call", 0, 1, 0, 0), J("plugin/secure", "VX_C17_Push", 1, 0, 0),
 				J("plugin/secure", "VX_C17_Push", 1, 1, 1), J("plugin/secure", "VX_C17_Push", 0, 1, 1), J("plugin/secure", "VX_C17_Push", 1, 0, 1),
 				J("plugin/secure", "VX_C17_PushRedial", 0, 1), J("plugin/secure", "VX_C17_PushRedial", 1, 1),
 				J("plugin/secure", "VX_C17_Call", 1, 0, 0, 1, 1), J("plugin/secure", "VX_C17_Call", 0, 1, 0, 1, 1), J("plugin/secure", "VX_C17_Call", 0, 1, 0, 1, 0), J("plugin/secure", "VX_C17_Call", 1, 1, 1, 1, 1),
